@@ -69,9 +69,17 @@ func (l *library) drawModel(r *rng.R) drawnModel {
 		case 1, 2:
 			bind = r.Intn(64)
 		}
-		return fromEntry(corpus.DrawSingle(r, l.tpls, idx, bind))
+		e := corpus.DrawSingle(r, l.tpls, idx, bind)
+		if r.Chance(1, 5) {
+			corpus.RenameTricky(r, e)
+		}
+		return fromEntry(e)
 	case x < 17 || len(l.samples) == 0:
-		return fromEntry(corpus.DrawDAG(r))
+		e := corpus.DrawDAG(r)
+		if r.Chance(1, 5) {
+			corpus.RenameTricky(r, e)
+		}
+		return fromEntry(e)
 	default:
 		// sample models; the large one (ndm) rarely
 		s := l.samples[r.Intn(len(l.samples))]
@@ -230,6 +238,20 @@ func patternWorlds(dm drawnModel, r *rng.R) []*Case {
 			{Kind: KOpFault, Inputs: s(1), Ref: -1, Fault: &OpFault{Node: mid, When: "after", Mode: "panic"}}, {Kind: KRun, Inputs: s(1), Ref: -1}, {Kind: KSame, Ref: 3},
 			{Kind: KOpFault, Inputs: s(0), Ref: -1, Fault: &OpFault{Node: mid, When: "apply", Mode: "error"}}, {Kind: KSame, Ref: 6}, {Kind: KIntrospect, Ref: -1}},
 	}
+	// a long history: 66 Runs alternating two input sets (crosses the small powers of two at which caches are
+	// resized or evicted and counters roll over), with a rejected call in the middle
+	var long []Call
+	for i := 0; i < 66; i++ {
+		switch {
+		case i == 33:
+			long = append(long, Call{Kind: KBad, Inputs: bad, Ref: -1, Note: note})
+		case i%7 == 6:
+			long = append(long, Call{Kind: KSame, Ref: i - 1 - (i-1)%7})
+		default:
+			long = append(long, Call{Kind: KRun, Inputs: s(i % 3), Ref: -1})
+		}
+	}
+	scripts = append(scripts, long)
 	var out []*Case
 	for _, sc := range scripts {
 		out = append(out, &Case{Prop: "C02", World: World{Models: []ModelSpec{dm.spec}, Tasks: []Task{{Calls: sc}}}, Policy: "pattern"})
@@ -255,6 +277,11 @@ func drawWorld02(r *rng.R, lib *library) *Case {
 	shareProto(r, &w, &models)
 	nt := 1 + r.Intn(3)
 	total := r.Range(2, 10)
+	if r.Chance(1, 60) {
+		// a long-lived Model: hundreds of calls
+		total = []int{130, 260, 520}[r.Intn(3)]
+		nt = 1 + r.Intn(2)
+	}
 	var order []int
 	for ti := 0; ti < nt; ti++ {
 		n := total / nt
